@@ -39,7 +39,7 @@ def _region(ctx, family):
             return m, fem.RegionTriangle(m, quadrature=fem.TriangleQuadrature(order=2))  # a sufficient rule (the default 1-point rule cannot carry a linear field)
         if family == "tri6":
             m = tiny_mesh("tri6")
-            return m, fem.RegionQuadraticTriangle(m)
+            return m, fem.RegionQuadraticTriangle(m, quadrature=fem.TriangleQuadrature(order=5))  # the rule project() requires for tri6 (it refuses lower ones with a documented ValueError)
         if family == "tet4":
             m = tiny_mesh("tet4")
             return m, fem.RegionTetra(m, quadrature=fem.TetrahedronQuadrature(order=2))
